@@ -21,6 +21,7 @@ RULE = ("cases = (kind, subtype, elements, container, index labels, index state 
 ASSUMPTIONS = ["exactness domain as in C01; boxes of positive width and height",
                "omitted ends are replaced by the exact total extent (C13 oracle)"]
 USE_CONTRACTS = True      # in-situ icontract monitors (vmon/contracts.py)
+SPLIT_KINDS = True         # thorough tier: one shard per geometry kind
 DECIDING_COUNTERS = ["queries_checked", "differential_checked"]
 
 CONTAINERS = ["array", "series", "frame"]
